@@ -350,11 +350,13 @@ func rounds(a *analysis, evs []event) {
 			n = len(l)
 		}
 	}
-	// queue depth per side over time: (#calls returned nil) - (#application packets pushed)
-	depth := make([][2]int32, len(evs)+1)
-	inflight := make([][2]int32, len(evs)+1)
-	var d, f [2]int32
-	for i, e := range evs {
+	// queue depth per side: (#calls returned nil) - (#application packets
+	// pushed), tracked while the side is between its KEXINIT and the peer's
+	// NEWKEYS (one linear pass)
+	var d, f, curMax [2]int32
+	var inKex [2]bool
+	var roundNo [2]int
+	for _, e := range evs {
 		switch {
 		case e.kind == evWStart:
 			f[e.side]++
@@ -365,8 +367,31 @@ func rounds(a *analysis, evs []event) {
 			}
 		case e.kind == evTW && e.typ >= 50 && e.typ != typFIN:
 			d[e.side]--
+		case e.kind == evTW && e.typ == msgKexInit:
+			inKex[e.side], curMax[e.side] = true, d[e.side]
+		case e.kind == evTR && !e.err && e.typ == msgNewKeys && inKex[e.side]:
+			s := e.side
+			inKex[s] = false
+			if roundNo[s] > 0 { // round 0 is the initial key exchange
+				mx := curMax[s]
+				if int(mx) > a.maxQueued[s] {
+					a.maxQueued[s] = int(mx)
+				}
+				if mx >= 64 {
+					a.roundsFull[s]++
+					a.blockedAtFull[s] += int(f[s])
+				}
+				if mx > 0 {
+					a.appInFlushTail += int(mx)
+				}
+			}
+			roundNo[s]++
 		}
-		depth[i+1], inflight[i+1] = d, f
+		for s := 0; s < 2; s++ {
+			if inKex[s] && d[s] > curMax[s] {
+				curMax[s] = d[s]
+			}
+		}
 	}
 	for k := 1; k < n; k++ { // round 0 is the initial key exchange
 		a.rounds++
@@ -387,35 +412,27 @@ func rounds(a *analysis, evs []event) {
 		if nkR[1][k] > hi {
 			hi = nkR[1][k]
 		}
-		for s := 0; s < 2; s++ {
-			mx := int32(0)
-			for i := kiW[s][k]; i <= nkR[s][k]; i++ {
-				if depth[i+1][s] > mx {
-					mx = depth[i+1][s]
-				}
-			}
-			if int(mx) > a.maxQueued[s] {
-				a.maxQueued[s] = int(mx)
-			}
-			if mx >= 64 {
-				a.roundsFull[s]++
-				a.blockedAtFull[s] += int(inflight[nkR[s][k]+1][s])
-			}
-			if mx > 0 {
-				a.appInFlushTail += int(mx)
-			}
+		if hi >= lo && hi-lo < 50000 {
+			a.sigs = append(a.sigs, signature(evs[lo:hi+1]))
 		}
-		a.sigs = append(a.sigs, signature(evs[lo:hi+1]))
 	}
 }
 
-// signature hashes the order of transport-boundary event kinds (packet class
-// written/read per side, key change, harness requests and holds) in a re-key
-// window; runs of the same token are collapsed so that the number of packets
-// does not matter.
+// signature hashes the order of transport-boundary event kinds in a re-key
+// window: key-exchange packets written/read per side, key changes, harness
+// requests and holds, in log order; application traffic is summarised, between
+// two such events, as the set of directions/ends at which it was seen (so the
+// number of packets does not matter, but "the client was still pushing
+// application data after the server's KEXINIT was read" does).
 func signature(win []event) string {
 	var toks []string
-	last := ""
+	var apMask uint8
+	flush := func() {
+		if apMask != 0 {
+			toks = append(toks, fmt.Sprintf("ap%x", apMask))
+			apMask = 0
+		}
+	}
 	for _, e := range win {
 		t := ""
 		s := string("CS"[e.side&1])
@@ -427,15 +444,24 @@ func signature(win []event) string {
 				return "NK"
 			case typ >= 30 && typ <= 49:
 				return "KX"
-			case typ >= 50:
-				return "AP"
 			}
 			return "TL"
 		}
 		switch e.kind {
 		case evTW:
+			if e.typ >= 50 {
+				apMask |= 1 << (e.side & 1)
+				continue
+			}
 			t = s + ">" + cls(e.typ)
 		case evTR:
+			if e.err {
+				continue
+			}
+			if e.typ >= 50 {
+				apMask |= 4 << (e.side & 1)
+				continue
+			}
 			t = s + "<" + cls(e.typ)
 		case evKeyChange:
 			t = s + "key"
@@ -448,11 +474,10 @@ func signature(win []event) string {
 		default:
 			continue
 		}
-		if t != last {
-			toks = append(toks, t)
-			last = t
-		}
+		flush()
+		toks = append(toks, t)
 	}
+	flush()
 	h := fnv.New64a()
 	h.Write([]byte(strings.Join(toks, " ")))
 	return fmt.Sprintf("%016x", h.Sum64())
